@@ -103,11 +103,18 @@ def _r8(chk: Check, R8: str) -> None:
         chk.require(ok, R8, key, '%s:%d' % (rel, line), det)
     # handlers that cannot catch it are the normal case: record them so the rule is not vacuous
     n = 0
-    for label, fi, _ in entry_units(chk):
+    done_nodes = set()
+    units = [fi for _l, fi, _ in entry_units(chk)]
+    # ... and the handlers of helpers the units go through (error-conversion context managers in a module of their own)
+    units += [fi for q, fi in sorted(F.functions.items()) if '.ply' not in fi.module.name and isinstance(fi.node, ast.FunctionDef)]
+    for fi in units:
         if fi.module.name.endswith(('.lexer', '.rules')):
             continue
         for node in ast.walk(fi.node):
             if isinstance(node, ast.ExceptHandler):
+                if id(node) in done_nodes:
+                    continue
+                done_nodes.add(id(node))
                 n += 1
                 ts = [F.resolve_expr(fi.module, t) for t in (node.type.elts if isinstance(node.type, ast.Tuple) else [node.type])] if node.type is not None else [('builtin', 'BaseException')]
                 k = '%s :: except %s (line %d)' % (fi.qual, '/'.join(str(q) for _, q in ts), node.lineno)
